@@ -2,7 +2,7 @@
 import gen
 import msggen
 
-QUICK = ["msg1005", "msg1006", "msg1004", "msg1012", "msg1013", "msg1017", "msg1019", "msg1020", "msg1023", "msg1033", "msg1029",
+QUICK = ["msg1005", "msg1006", "msg1004", "msg1012", "msg1013", "msg1017", "msg1019", "msg1023", "msg1033",
          "msg1057", "msg1059", "msg1065", "msg1230", "msg1042", "msg1300", "msg1045"]
 QUICK_MSM = ["msg1071", "msg1075", "msg1087"]
 
@@ -81,7 +81,8 @@ def generate(T, tier):
             for vname, ns, nc, conc, must_err in variants:
                 name = "%s_%s" % (mod, vname)
                 code.append(HARNESS % {"unw": 66, "name": name, "expr": msm_any(G, mod, ns, nc, "bits", conc), "mod": mod, "variant": m["variant"], "number": m["number"], "must_err": must_err})
-                tier_h = "quick" if (q and vname in ("s1c1", "cells65")) or (mod == "msg1077" and vname == "cells65") else "thorough"
+                # symbolic-id MSM harnesses did not finish in 35 min: thorough tier; the 65-cell family (concrete ids) is quick
+                tier_h = "quick" if (mod in ("msg1075", "msg1077") and vname == "cells65") else "thorough"
                 hs.append({"name": "c09gen::%s" % name, "group": "msm", "tier": tier_h,
                            "bounds": "%s with %d satellites / %d cells, %s, every integer over its full Rust type, every float bit pattern" % (mod, ns, nc, "symbolic ids (0, 1..64, 65..255; any band/attribute)" if conc is None else "5x13 concrete ids = 65 mask cells")})
             continue
